@@ -1,5 +1,7 @@
 import Pandora.Drv.Util
 import Pandora.Spec.C18
+import Pandora.Model.C18Reg
+import Pandora.Model.C18Engine
 
 namespace Pandora.Drv.C18
 open Pandora.Drv Pandora.Model.C18 Pandora.Spec.C18
@@ -36,8 +38,11 @@ def parseInput (s : String) : Option Input := do
   let ff ← parseNats (getS kv "ff")
   let cf ← parseNats (getS kv "cf")
   let rf ← parseNats (getS kv "rf")
+  -- bad=1 (hook / engine path): the user's settings do not decode, so EVERY fillConf invocation fails
+  let bad := getS kv "bad" == "1"
   pure { sh, form, k, w := { dflt := d, user := u, hasFill := getS kv "fill" == "1",
-                             fillFault := ff.contains, ctorFault := cf.contains, factFault := rf.contains } }
+                             fillFault := if bad then fun _ => true else ff.contains,
+                             ctorFault := cf.contains, factFault := rf.contains } }
 
 def okc (b : Bool) : String := if b then "+" else "!"
 
@@ -135,20 +140,130 @@ def eraseFills (o : Obs) : Obs :=
 /-- the Spec on an observation without fill events: errors and configuration in full (the user's settings ARE
 applied), the per-call structure (default-config / constructor / factory invocations, identities, views) as for a
 run without fillConf -/
-def judgeHook (inp : Input) (obs : Option Obs) : String :=
+def judgeHook (inp : Input) (obs : Option Obs) (bad : Bool) : String :=
   let noFill : Input := { inp with w := { inp.w with hasFill := false } }
   match obs with
   | none => judge inp obs fields
   | some o =>
+    -- a failed decode is visible only as the operation's result: put the failing invocation back for `errorsOk`
+    let restored : Obs := { o with steps := o.steps.map fun s =>
+      match s.res with
+      | .err (.fill i) | .panic (.fill i) => { s with evs := s.evs ++ [Ev.fill i none false] }
+      | _ => s }
     if !registerOk inp.sh then "fail:registered:invalid registration accepted"
     else if o.steps.any (fun s => s.evs.any isFill) then "fail:driver:fill event on the hook path"
-    else if !errorsOk inp o then "fail:errors:error not delivered as the error result / panic rule"
+    else if !errorsOk inp restored then "fail:errors:error not delivered as the error result / panic rule"
     else if !configOk inp o fields then "fail:config:product config is not defaults overlaid by user settings"
-    else if freshApplies noFill && !freshOk noFill o then "fail:fresh:config not created per product or shared between products"
-    else if onceApplies noFill && !onceOk noFill o then "fail:once:factory constructor not configured exactly once"
+    else if !bad && freshApplies noFill && !freshOk noFill o then "fail:fresh:config not created per product or shared between products"
+    else if !bad && onceApplies noFill && !onceOk noFill o then "fail:once:factory constructor not configured exactly once"
+    else if !structOkBy resFill noFill o then "fail:counts:user code invoked in another number or order than the constructor shape prescribes"
     else "ok"
 
+/-! ### `via=reg`: which constructor / default-config types `Register` accepts -/
+
+open Pandora.Model.C18Ty Pandora.Model.C18Reg in
+mutual
+/-- type descriptions: `I` plugin interface, `E` error, `J` another interface, `S` Conf, `T` another struct, `i` int,
+`M` *comp (implements the plugin interface), `*t` pointer, `F(t,…;t,…)` func -/
+def parseTy : Nat → List Char → Option (Ty × List Char)
+  | 0, _ => none
+  | _ + 1, 'I' :: r => some (plugT, r)
+  | _ + 1, 'E' :: r => some (Ty.error, r)
+  | _ + 1, 'J' :: r => some (.base .iface 5 [], r)
+  | _ + 1, 'S' :: r => some (confT, r)
+  | _ + 1, 'T' :: r => some (.base .struct 4 [], r)
+  | _ + 1, 'i' :: r => some (.base .other 6 [], r)
+  | _ + 1, 'M' :: r => some (implT, r)
+  | f + 1, '*' :: r => (parseTy f r).map fun x => (.ptr x.1 [], x.2)
+  | f + 1, 'F' :: '(' :: r =>
+    match parseTys f r with
+    | some (ins, ';' :: r2) =>
+      (match parseTys f r2 with
+       | some (outs, ')' :: r4) => some (.func ins outs, r4)
+       | _ => none)
+    | _ => none
+  | _ + 1, _ => none
+def parseTys : Nat → List Char → Option (Tys × List Char)
+  | 0, _ => none
+  | f + 1, cs =>
+    match cs with
+    | ';' :: _ => some (.nil, cs)
+    | ')' :: _ => some (.nil, cs)
+    | _ =>
+      match parseTy f cs with
+      | some (t, ',' :: r) => (parseTys f r).map fun x => (.cons t x.1, x.2)
+      | some (t, r) => some (.cons t .nil, r)
+      | none => none
+end
+
+open Pandora.Model.C18Ty in
+def parseTyStr (s : String) : Option Ty :=
+  match parseTy (s.length + 2) s.toList with
+  | some (t, []) => some t
+  | _ => none
+
+open Pandora.Model.C18Ty Pandora.Model.C18Reg in
+def handleReg (kv : List (String × String)) (impl : String) : String × String :=
+  match parseTyStr (getS kv "ty"), parseTyStr (getS kv "pt" "I") with
+  | some ty, some pt =>
+    let dts := getS kv "dt" "-"
+    let dt : Option (Option Ty) := if dts == "-" then some none else (parseTyStr dts).map some
+    match dt with
+    | none => ("-", "fail:driver:unparsable default-config type")
+    | some dt =>
+      let ok := regSelfOk pt (getS kv "nm" "x" == "e") (getS kv "dup" == "1") && supported pt ty dt
+      let m := if ok then "accepted" else "regpanic"
+      if impl == m then (m, "ok")
+      else if ok then (m, "fail:register:a supported way of registering a constructor is refused")
+      else (m, "fail:register:an unsupported constructor / default-config function is accepted")
+  | _, _ => ("-", "fail:driver:unparsable type")
+
+/-! ### `via=engine`: a pool of the real engine with the registered gun -/
+
+open Pandora.Model.C18Engine in
+def showEngine (e : EngineObs) : String :=
+  let seen := ",".intercalate (e.seen.map fun t => s!"{t.1}/{t.2.1}/{t.2.2}")
+  let binds := ",".intercalate (e.binds.map toString)
+  s!"eng res={e.res} guns={e.guns} cells={e.cells} d={e.dflts} c={e.ctors} r={e.facts} seen={seen} own={e.own} binds={binds} sched={e.sched}"
+
+def parseTriple (s : String) : Option (Int × Int × Int) :=
+  match (s.splitOn "/").mapM String.toInt? with
+  | some [a, b, c] => some (a, b, c)
+  | _ => none
+
+/-- the Spec on the summary of what the REAL engine did -/
+def judgeEngine (inp : Input) (inst : Nat) (model : Pandora.Model.C18Engine.EngineObs) (kv : List (String × String)) : String :=
+  let gi := Pandora.Model.C18Engine.gunInput inp inst
+  let exp := expected inp.sh inp.w
+  match getN? kv "guns", getN? kv "cells", getN? kv "own", parseNats (getS kv "binds"),
+        (splitList (getS kv "seen")).mapM parseTriple with
+  | some guns, some cells, some own, some binds, some seen =>
+    if getS kv "res" != model.res then
+      s!"fail:errors:the pool run ended {getS kv "res"}, the constructor/config error plan says {model.res}"
+    else if getS kv "res" == "ok" && guns != inst + 1 then "fail:errors:a pool without error built another number of guns than instances + 1"
+    else if !seen.all (fun t => if inp.sh.cfg = .none then t == (0, 0, 0) else t == (exp.get 1, exp.get 2, exp.get 3)) then
+      "fail:config:a gun was not built from the defaults overlaid by the user's settings"
+    else if binds.any (· > 1) then "fail:fresh:one gun was bound to more than one instance"
+    else if freshApplies gi && (own != cells || (inp.sh.cfg == .ptr && cells != guns)) then
+      "fail:fresh:guns of different instances share a configuration object"
+    else "ok"
+  | _, _, _, _, _ => s!"fail:crash:unparsable engine observation"
+
+def handleEngine (input impl : String) : String × String :=
+  let kv := parseKV input
+  match parseInput (input ++ " form=f2 k=0 ff="), getN? kv "inst" with
+  | some inp, some inst =>
+    if !inp.w.hasFill then ("-", "fail:driver:via=engine needs fill=1") else
+    match Pandora.Model.C18Engine.engineRun inp inst (getS kv "per" == "1") with
+    | none => ("-", "fail:driver:via=engine with a registration Register refuses")
+    | some m =>
+      if impl.startsWith "eng skip=" then ("-", "skip:inconclusive " ++ (impl.drop 9).toString) else
+      (showEngine m, judgeEngine inp inst m (parseKV impl))
+  | _, _ => ("-", "fail:driver:unparsable input")
+
 def handle : Handler := fun input impl =>
+  if getS (parseKV input) "via" == "reg" then handleReg (parseKV input) impl else
+  if getS (parseKV input) "via" == "engine" then handleEngine input impl else
   match parseInput input with
   | none => ("-", "fail:driver:unparsable input")
   | some inp =>
@@ -170,6 +285,6 @@ def handle : Handler := fun input impl =>
             | .ok p => if p.seen == [(0, 0), (1, 0), (2, 0), (3, 0)] then { s with res := .ok { p with seen := [] } } else s
             | _ => s }
         else obs
-      (m, if hook then judgeHook inp obs else judge inp obs fields)
+      (m, if hook then judgeHook inp obs (getS (parseKV input) "bad" == "1") else judge inp obs fields)
 
 end Pandora.Drv.C18
